@@ -2,6 +2,7 @@
 
 R01-a AST field coverage · R01-b verbatim fallback · R01-c no defaulted sub-rewrite
 """
+import re
 from common import short, Call, correlated_reach
 
 POS_T = ("rustc_span::Span", "rustc_ast::NodeId", "rustc_ast::AttrId", "rustc_ast::tokenstream::LazyAttrTokenStream",
@@ -147,6 +148,7 @@ def run(ctx):
     macro_parsers_skip_only_tested_tokens(ctx, "R01-p")
     stream_parsers_reach_end_of_input(ctx, "R01-q", tab)
     sibling_switches_separate_the_same_variants(ctx, "R01-r", tab)
+    path_name_tests_look_at_generic_arguments(ctx, "R01-t", tab)
     import c10
     c10.visibility_tables(ctx, "R01-s")      # shared with C10: a visibility that compares equal to a different one is rewritten into it
     C = r.rule("R01-c", "no defaulted sub-rewrite: a RewriteResult / Option<String> returned by a Rewrite method is never turned into "
@@ -754,6 +756,70 @@ def paren_peelers_look_at_attributes(ctx, rid):
             r.violation(rid, "%s peels parentheses without looking at the attributes of the peeled expression" % short(f.id),
                         "`(#[a] (x))` is printed as `(x)`", ["%s:%d" % (f.file, f.line)])
     r.floor(rid, n, 1, "in-place parenthesis peelers")
+
+
+_GENERIC_PATH_HOLDERS = (("ast::ExprKind", "Path"), ("ast::TyKind", "Path"), ("ast::PatKind", "Path"), ("ast::PatKind", "TupleStruct"),
+                         ("ast::PatKind", "Struct"), ("ast::ExprKind", "Struct"), ("ast::StructExpr", "StructExpr"),
+                         ("ast::ExprKind", "MethodCall"), ("ast::MethodCall", "MethodCall"), ("ast::TraitRef", "TraitRef"))
+
+
+def path_name_tests_look_at_generic_arguments(ctx, rid, tab):
+    """R01-t: who reads the name of a path segment of an expression / type / pattern path also reads its generic arguments"""
+    p, r = ctx.p, ctx.r
+    r.rule(rid, "a path segment of an expression, type or pattern path is a name *and* its generic arguments (`parse::<u32>`). A "
+                "function (with its closures) that takes a path out of ExprKind::Path / TyKind::Path / PatKind::{Path, TupleStruct, "
+                "Struct} / a struct literal / a method call — itself, or as an argument a caller takes out of one — and reads "
+                "`PathSegment::ident` to decide or print something also reads `PathSegment::args`: a test on the name alone "
+                "treats `f: f::<T>` as `f: f` (use_field_init_shorthand then prints `f`, and the turbofish is gone). Readers of "
+                "attribute, macro, visibility and `use` paths — which have no arguments — are outside the rule; exceptions by "
+                "function in tables/C01.toml [[segment_name_exception]]")
+    exc = {e["fn"]: e["reason"] for e in tab.get("segment_name_exception", [])}
+    fam = {}
+    for f in p.by_crate["rustfmt_nightly"]:
+        fam.setdefault(f.root or f.id, []).append(f)
+
+    def holder(a, v):
+        return any(a and a.endswith(x) and v == y for (x, y) in _GENERIC_PATH_HOLDERS)
+    n = readers = 0
+    for root, fs in sorted(fam.items()):
+        acc = [(a, v, str(fl), f, ln) for f in fs for (a, v, fl, m, bb, ln) in f.field_accesses() if m == "r"]
+        ident = [x for x in acc if x[0] and x[0].endswith("ast::PathSegment") and x[2] == "ident"]
+        if not ident:
+            continue
+        readers += 1
+        args = [x for x in acc if x[0] and x[0].endswith("ast::PathSegment") and x[2] == "args"]
+        own = sorted({"%s::%s" % (x[0].rsplit("::", 1)[-1], x[1]) for x in acc if holder(x[0], x[1])})
+        handed = []
+        f0 = p.fns.get(root)
+        if f0 is not None and not own:
+            for (src, kind, c) in p.callers().get(root, []):
+                if c is None or src not in p.fns:
+                    continue
+                g = p.fns[src]
+                for i, a in enumerate(c.args):
+                    if a[0] == "k" or i + 1 >= len(f0.locals) or not re.search(r"ast::(Path|PathSegment)\b", f0.locals[i + 1]):
+                        continue
+                    d = g.derived_from(a[1][0])
+                    fl = list(d["fields"]) + [(e[2], e[3], e[4]) for e in a[1][1] if isinstance(e, list) and e[0] == "f"]
+                    handed += ["%s::%s (from %s)" % (x[0].rsplit("::", 1)[-1], x[1], short(src)) for x in fl if holder(x[0], x[1])]
+        capable = own or handed
+        if not capable:
+            r.instance(rid, "%s reads a segment name of a path without generic arguments" % short(root), "outside", 
+                       "%s:%d" % (ident[0][3].file, ident[0][4]), "no expression / type / pattern path in reach", nontrivial=False)
+            continue
+        n += 1
+        key = "%s reads the name of a segment of %s" % (short(root), ", ".join(sorted(set(capable)))[:80])
+        loc = "%s:%d" % (ident[0][3].file, ident[0][4])
+        if args:
+            r.instance(rid, key, "ok", loc, "also reads PathSegment::args")
+        elif root in exc or short(root) in exc:
+            r.instance(rid, key, "exception", loc, exc.get(root) or exc.get(short(root)), nontrivial=False)
+        else:
+            r.instance(rid, key, "violation", loc, "PathSegment::args is never read")
+            r.violation(rid, "%s tests the name of a path segment and never looks at its generic arguments" % short(root),
+                        "the path comes out of %s, whose segments may carry `::<..>`: `S { f: f::<u32> }` is handled as "
+                        "`S { f: f }`" % ", ".join(sorted(set(capable)))[:120], [loc])
+    r.floor(rid, readers, 10, "function families that read PathSegment::ident")
 
 
 _TOKEN_FORMATTERS = ("format_visibility", "format_safety", "format_mutability", "format_defaultness", "format_constness",
